@@ -1211,7 +1211,9 @@ func scenarios() []hx.Scenario {
 				if !hasTrigger(sc) {
 					continue
 				}
-				add(sc, rm, false, 2, 2, len(t) > 3 || (sup == '3' && len(t) < 3))
+				// several free-running adder threads: preemption bounding grows
+				// factorially, one preemption must complete
+				add(sc, rm, false, 1, 2, sup == '3' || len(t) > 2)
 				sc.closerMgr, sc.closers, sc.grace, sc.close = true, "e", '-', '1'
 				add(sc, rcm, true, 3, 4, len(t) > 2)
 			}
